@@ -380,6 +380,52 @@ func c17Literal(c *Ctx, k strCase) {
 	}
 }
 
+// c17Wrap puts a document inside one more container, with a sibling before it and one behind it (what comes behind a
+// deep part is where a stack that lost its lower entries shows)
+func c17Wrap(toks, cls []string, w []int, object bool) ([]string, []string, []int) {
+	var t2, c2 []string
+	var w2 []int
+	add := func(tok, cl string, d, i, k int) {
+		t2 = append(t2, tok)
+		c2 = append(c2, cl)
+		w2 = append(w2, d, i, k)
+	}
+	if object {
+		add("{", "{", 0, 0, 0)
+		add(`"a"`, "s", 1, 0, 1)
+		add(":", ":", 0, 0, 0)
+		add("0", "n", 1, 0, 0)
+		add(",", ",", 0, 0, 0)
+		add(`"b"`, "s", 1, 1, 1)
+		add(":", ":", 0, 0, 0)
+	} else {
+		add("[", "[", 0, 0, 0)
+		add("0", "n", 1, 0, 0)
+		add(",", ",", 0, 0, 0)
+	}
+	for i := range toks {
+		d, ix, ky := w[3*i], w[3*i+1], w[3*i+2]
+		if d == 0 {
+			ix = 1
+		}
+		add(toks[i], cls[i], d+1, ix, ky)
+	}
+	if object {
+		add(",", ",", 0, 0, 0)
+		add(`"c"`, "s", 1, 2, 1)
+		add(":", ":", 0, 0, 0)
+		add("true", "l", 1, 2, 0)
+		add("}", "}", 0, 0, 0)
+	} else {
+		add(",", ",", 0, 0, 0)
+		add(`"z"`, "s", 1, 2, 0)
+		add("]", "]", 0, 0, 0)
+	}
+	return t2, c2, w2
+}
+
+var c17Depths = []int{3, 4, 5, 7, 8, 9, 15, 16, 17, 31, 33, 40, 64, 65, 130}
+
 func c17Vector(c *Ctx, raw stdjson.RawMessage) {
 	var sv strVec
 	if stdjson.Unmarshal(raw, &sv) == nil && sv.Dir == "unesc" {
@@ -419,6 +465,27 @@ func c17Vector(c *Ctx, raw stdjson.RawMessage) {
 		for _, pr := range c17Priors {
 			k.Prior = pr.name
 			c17RunDoc(c, k)
+		}
+		if i == 0 || i == 1 {
+			// the same document some levels further down
+			toks2, cls2, w2 := toks, v.T, w
+			depth := c17Depths[r.intn(len(c17Depths))]
+			for d := 0; d < depth; d++ {
+				toks2, cls2, w2 = c17Wrap(toks2, cls2, w2, r.intn(2) == 0)
+			}
+			var deep []byte
+			for j, t := range toks2 {
+				if i == 1 && j%5 == 3 {
+					deep = append(deep, ' ')
+				}
+				deep = append(deep, t...)
+			}
+			kd := c17Case{Doc: string(deep), Toks: toks2, Cls: cls2, W: w2}
+			c.Case()
+			for _, pr := range c17Priors {
+				kd.Prior = pr.name
+				c17RunDoc(c, kd)
+			}
 		}
 	}
 }
